@@ -16,6 +16,9 @@ package main
 
 import (
 	"bufio"
+	"bytes"
+	"context"
+	"encoding/json"
 	"fmt"
 	"io"
 	"log"
@@ -23,6 +26,7 @@ import (
 	"net/http/httptest"
 	"net/url"
 	"os"
+	"os/exec"
 	"path/filepath"
 	"regexp"
 	"sort"
@@ -383,7 +387,7 @@ func newHTTPSim(reply func(i int, r *http.Request) (c17Reply, map[string]string)
 		case "terr":
 			if rep.B == "sleep" {
 				// longer than the client's timeout (1 s); the client gives up
-				time.Sleep(1300 * time.Millisecond)
+				time.Sleep(time.Duration(1300*simScale) * time.Millisecond)
 				return
 			}
 			if hj, ok := w.(http.Hijacker); ok {
@@ -529,25 +533,32 @@ const nsxNetspoc = `{
 // ---------------------------------------------------------------- one run
 
 type runOutcome struct {
-	stdout, stderr string
-	status         int
-	panicMsg       string
-	files          map[string]string
-	reqs           []simReq
-	addr           string
-	simOut         string // SSH: bytes the simulated device wrote
-	simEv          string
-	simTl          string
-	noEcho         bool // the device did not echo at a password prompt (computed by the model from the chunks)
-	stepsDone      bool
-	logDir         string
+	Stdout, Stderr string
+	Status         int
+	PanicMsg       string
+	Files          map[string]string
+	Reqs           []simReq
+	Addr           string
+	SimOut         string // SSH: bytes the simulated device wrote
+	SimEv          string
+	SimTl          string
+	LogDir         string
+	Retries        int    // HTTP: requests the transport silently repeated
+	Env            string // the run could not be carried out (time-out of the child, no pty …): inconclusive
+	noEcho         bool   // the device did not echo at a password prompt (computed by the model from the chunks)
 }
+
+// simScale: time-out scale of the run carried out by this process
+var simScale = 1
 
 var devSSH = map[string]bool{"ASA": true, "IOS": true, "Linux": true}
 
-func (e *c17Env) execRun(c *runCase, no int) *runOutcome {
-	work := filepath.Join(e.tmp, fmt.Sprintf("run%d", no))
-	side := filepath.Join(e.tmp, fmt.Sprintf("side%d", no)) // scenario, traces: not scanned
+// execRun carries out one run of the real code in THIS process (it is called in a child process of
+// the harness, see spawnRun).  scale multiplies the tool's time-outs (1 s) and the fault durations.
+func execRun(tmp string, c *runCase, no int, scale int) *runOutcome {
+	work := filepath.Join(tmp, fmt.Sprintf("run%d", no))
+	side := filepath.Join(tmp, fmt.Sprintf("side%d", no)) // scenario, traces: not scanned
+	simScale = scale
 	os.MkdirAll(side, 0755)
 	p1 := filepath.Join(work, "policies", "p1")
 	codeDir := filepath.Join(p1, "code")
@@ -568,11 +579,11 @@ func (e *c17Env) execRun(c *runCase, no int) *runOutcome {
 	}
 	WriteFiles(work, map[string]string{
 		"credentials":      cred,
-		".netspoc-approve": "basedir = " + work + "\ncheckbanner = NetSPoC\nsystemuser = " + user + "\ntimeout = 1\nlogin_timeout = 1\n",
+		".netspoc-approve": "basedir = " + work + "\ncheckbanner = NetSPoC\nsystemuser = " + user + fmt.Sprintf("\ntimeout = %d\nlogin_timeout = %d\n", scale, scale),
 	})
 	info := fmt.Sprintf("{\n \"model\": %q,\n \"name_list\": [ \"router\" ],\n \"ip_list\": [ \"10.1.13.33\" ]\n}\n", c.Dev)
 	netspoc := ""
-	out := &runOutcome{files: map[string]string{}, noEcho: true}
+	out := &runOutcome{Files: map[string]string{}, noEcho: true}
 	var sim *httpSim
 	os.Unsetenv("TEST_TIME")
 	switch c.Dev {
@@ -700,14 +711,14 @@ func (e *c17Env) execRun(c *runCase, no int) *runOutcome {
 	if sim != nil {
 		defer sim.srv.Close()
 		os.Setenv("SIMULATE_ROUTER", sim.srv.URL)
-		out.addr = sim.srv.URL
+		out.Addr = sim.srv.URL
 	}
 	WriteFiles(codeDir, map[string]string{"router": netspoc, "router.info": info})
 	os.Setenv("HOME", work)
 	prevDir, _ := os.Getwd()
 	os.Chdir(work)
 	defer os.Chdir(prevDir)
-	out.logDir = filepath.Join(p1, "log")
+	out.LogDir = filepath.Join(p1, "log")
 	var mainFn func() int
 	switch c.Cmd {
 	case "do-approve approve":
@@ -717,14 +728,14 @@ func (e *c17Env) execRun(c *runCase, no int) *runOutcome {
 		os.Args = []string{"do-approve", "compare", "router"}
 		mainFn = doapprove.Main
 	case "drc":
-		os.Args = []string{"drc", "-L", out.logDir, filepath.Join(codeDir, "router")}
+		os.Args = []string{"drc", "-L", out.LogDir, filepath.Join(codeDir, "router")}
 		mainFn = drc.Main
 	case "drc -u":
-		os.Args = []string{"drc", "-u", user, "-L", out.logDir, filepath.Join(codeDir, "router")}
+		os.Args = []string{"drc", "-u", user, "-L", out.LogDir, filepath.Join(codeDir, "router")}
 		mainFn = drc.Main
 		master, slave, err := openPTY()
 		if err != nil {
-			out.panicMsg = "openpty: " + err.Error()
+			out.PanicMsg = "openpty: " + err.Error()
 			return out
 		}
 		oldStdin := os.Stdin
@@ -760,16 +771,16 @@ func (e *c17Env) execRun(c *runCase, no int) *runOutcome {
 			slave.Close()
 			master.Close()
 			tmu.Lock()
-			out.files["<terminal>"] = termBuf.String()
+			out.Files["<terminal>"] = termBuf.String()
 			tmu.Unlock()
 		}()
 	default:
-		os.Args = []string{"drc", "-C", "-L", out.logDir, filepath.Join(codeDir, "router")}
+		os.Args = []string{"drc", "-C", "-L", out.LogDir, filepath.Join(codeDir, "router")}
 		mainFn = drc.Main
 	}
 	done := make(chan struct{})
 	go func() {
-		out.stdout, out.stderr, out.status, out.panicMsg = Captured(func() int {
+		out.Stdout, out.Stderr, out.Status, out.PanicMsg = Captured(func() int {
 			// goexpect reports through the standard logger, which in a real process writes to stderr
 			log.SetOutput(os.Stderr)
 			defer log.SetOutput(io.Discard)
@@ -779,32 +790,30 @@ func (e *c17Env) execRun(c *runCase, no int) *runOutcome {
 	}()
 	select {
 	case <-done:
-	case <-time.After(60 * time.Second):
-		out.panicMsg = "TIMEOUT of the run (60s)"
+	case <-time.After(time.Duration(10+8*scale) * time.Second):
+		out.Env = "time-out of the run"
 		return out
 	}
 	os.Unsetenv("SIMULATE_ROUTER")
 	if sim != nil {
 		sim.mu.Lock()
-		out.reqs = append(out.reqs, sim.reqs...)
-		if sim.retries > 0 {
-			e.res.CountN("http:transparent-retries-of-dropped-requests", sim.retries)
-		}
+		out.Reqs = append(out.Reqs, sim.reqs...)
+		out.Retries = sim.retries
 		sim.mu.Unlock()
 	}
 	if devSSH[c.Dev] {
 		b, _ := os.ReadFile(filepath.Join(side, "scenario.out"))
-		out.simOut = string(b)
+		out.SimOut = string(b)
 		b, _ = os.ReadFile(filepath.Join(side, "scenario.ev"))
-		out.simEv = string(b)
+		out.SimEv = string(b)
 		b, _ = os.ReadFile(filepath.Join(side, "scenario.tl"))
-		out.simTl = string(b)
+		out.SimTl = string(b)
 	}
 	filepath.Walk(work, func(p string, info os.FileInfo, err error) error {
 		if err == nil && info.Mode().IsRegular() {
 			rel, _ := filepath.Rel(work, p)
 			b, _ := os.ReadFile(p)
-			out.files[rel] = string(b)
+			out.Files[rel] = string(b)
 		}
 		return nil
 	})
@@ -882,8 +891,8 @@ func (e *c17Env) scanRun(c *runCase, o *runOutcome) {
 		secrets["token"] = c.Key
 		secrets["cookie"] = c.Cookie
 	}
-	hay := map[string]string{"<stdout>": o.stdout, "<stderr>": o.stderr}
-	for rel, content := range o.files {
+	hay := map[string]string{"<stdout>": o.Stdout, "<stderr>": o.Stderr}
+	for rel, content := range o.Files {
 		if rel == "credentials" || rel == ".netspoc-approve" {
 			continue // the configuration holds the password by design
 		}
@@ -932,8 +941,8 @@ func (e *c17Env) scanRun(c *runCase, o *runOutcome) {
 					if !strings.Contains(line, needle) {
 						continue
 					}
-					get := `Get "` + o.addr + `/api/?key=`
-					prs := `parse "` + o.addr + `/api/?key=`
+					get := `Get "` + o.Addr + `/api/?key=`
+					prs := `parse "` + o.Addr + `/api/?key=`
 					i := strings.Index(line, get)
 					if i < 0 {
 						i = strings.Index(line, prs)
@@ -989,11 +998,11 @@ func markerLines(runlog string) []string {
 func (o *runOutcome) runlog(c *runCase) string {
 	switch c.Cmd {
 	case "do-approve approve":
-		return o.files["policies/p1/log/router.drc"]
+		return o.Files["policies/p1/log/router.drc"]
 	case "do-approve compare":
-		return o.files["policies/p1/log/router.compare"]
+		return o.Files["policies/p1/log/router.compare"]
 	}
-	return o.stderr
+	return o.Stderr
 }
 
 func parseSinks(ans string) (map[string][]string, bool) {
@@ -1010,7 +1019,7 @@ func parseSinks(ans string) (map[string][]string, bool) {
 }
 
 func (e *c17Env) comparePanos(c *runCase, o *runOutcome) {
-	if len(o.reqs) == 0 {
+	if len(o.Reqs) == 0 {
 		return
 	}
 	enc := func(r c17Reply) string {
@@ -1019,9 +1028,9 @@ func (e *c17Env) comparePanos(c *runCase, o *runOutcome) {
 		}
 		return r.enc()
 	}
-	kg := o.reqs[0].Reply
+	kg := o.Reqs[0].Reply
 	var reqs, reps []string
-	for i, q := range o.reqs[1:] {
+	for i, q := range o.Reqs[1:] {
 		reps = append(reps, enc(q.Reply))
 		if i == 0 {
 			continue // the HA check is built into the model
@@ -1047,7 +1056,7 @@ func (e *c17Env) comparePanos(c *runCase, o *runOutcome) {
 		}
 		return strings.Join(l, ";")
 	}
-	line := strings.Join([]string{"panos", hx(o.addr), hx(c.user()), hx(c.Pass), hx("router"), hx("10.1.13.33"),
+	line := strings.Join([]string{"panos", hx(o.Addr), hx(c.user()), hx(c.Pass), hx("router"), hx("10.1.13.33"),
 		enc(kg), hx(c.Key), j(reqs), j(reps)}, "\t")
 	ans := e.drv.Ask(line)
 	m, ok := parseSinks(ans)
@@ -1055,8 +1064,8 @@ func (e *c17Env) comparePanos(c *runCase, o *runOutcome) {
 		e.res.Disagree("c17 run PAN-OS (driver)", c, "", ans)
 		return
 	}
-	impl := "login:\n" + o.files["policies/p1/log/router.login"] + "config:\n" + o.files["policies/p1/log/router.config"] +
-		"change:\n" + o.files["policies/p1/log/router.change"] + "runlog:\n" + strings.Join(markerLines(o.runlog(c)), "\n")
+	impl := "login:\n" + o.Files["policies/p1/log/router.login"] + "config:\n" + o.Files["policies/p1/log/router.config"] +
+		"change:\n" + o.Files["policies/p1/log/router.change"] + "runlog:\n" + strings.Join(markerLines(o.runlog(c)), "\n")
 	change := entriesToFile(m["change"])
 	model := "login:\n" + entriesToFile(m["login"]) + "config:\n" + entriesToFile(m["config"]) +
 		"change:\n" + change + "runlog:\n" + strings.Join(m["runlog"], "\n")
@@ -1074,10 +1083,10 @@ func titleCase(m string) string {
 }
 
 func (e *c17Env) compareNSX(c *runCase, o *runOutcome) {
-	if len(o.reqs) == 0 {
+	if len(o.Reqs) == 0 {
 		return
 	}
-	lg := o.reqs[0].Reply
+	lg := o.Reqs[0].Reply
 	login := ""
 	switch lg.Kind {
 	case "terr":
@@ -1088,7 +1097,7 @@ func (e *c17Env) compareNSX(c *runCase, o *runOutcome) {
 		login = "resp:" + hx("200 OK") + ":" + hx("200")
 	}
 	var reqs, reps []string
-	rest := o.reqs[1:]
+	rest := o.Reqs[1:]
 	for i, q := range rest {
 		path := q.URI
 		rep := q.Reply
@@ -1108,7 +1117,7 @@ func (e *c17Env) compareNSX(c *runCase, o *runOutcome) {
 			// the last GET is followed by the dump of the collected configuration
 			last := i == len(rest)-1 || rest[i+1].Method != "GET"
 			if last && rep.Kind == "ok" && strings.Contains(path, "/groups") {
-				after = hx(strings.TrimSuffix(o.files["policies/p1/log/router.config"], "\n"))
+				after = hx(strings.TrimSuffix(o.Files["policies/p1/log/router.config"], "\n"))
 			}
 		}
 		reqs = append(reqs, strings.Join([]string{hx(titleCase(q.Method)), hx(q.Method), hx(path), log, before, after}, ":"))
@@ -1120,7 +1129,7 @@ func (e *c17Env) compareNSX(c *runCase, o *runOutcome) {
 		}
 		return strings.Join(l, ";")
 	}
-	line := strings.Join([]string{"nsx", hx(o.addr), hx(c.user()), hx(c.Pass), hx(c.Key), hx(c.Cookie), hx("router"),
+	line := strings.Join([]string{"nsx", hx(o.Addr), hx(c.user()), hx(c.Pass), hx(c.Key), hx(c.Cookie), hx("router"),
 		login, j(reqs), j(reps)}, "\t")
 	ans := e.drv.Ask(line)
 	m, ok := parseSinks(ans)
@@ -1128,8 +1137,8 @@ func (e *c17Env) compareNSX(c *runCase, o *runOutcome) {
 		e.res.Disagree("c17 run NSX (driver)", c, "", ans)
 		return
 	}
-	impl := "login:\n" + o.files["policies/p1/log/router.login"] + "config:\n" + o.files["policies/p1/log/router.config"] +
-		"change:\n" + o.files["policies/p1/log/router.change"] + "runlog:\n" + strings.Join(markerLines(o.runlog(c)), "\n")
+	impl := "login:\n" + o.Files["policies/p1/log/router.login"] + "config:\n" + o.Files["policies/p1/log/router.config"] +
+		"change:\n" + o.Files["policies/p1/log/router.change"] + "runlog:\n" + strings.Join(markerLines(o.runlog(c)), "\n")
 	model := "login:\n" + entriesToFile(m["login"]) + "config:\n" + entriesToFile(m["config"]) +
 		"change:\n" + entriesToFile(m["change"]) + "runlog:\n" + strings.Join(m["runlog"], "\n")
 	e.res.TracesVsImpl++
@@ -1143,9 +1152,9 @@ var reExpectErr = regexp.MustCompile(`(?m)': (expect: [^\n]*)$`)
 func (e *c17Env) compareSSH(c *runCase, o *runOutcome) {
 	// (a) every session log is device output, in order: login ++ config ++ change is a prefix of the
 	// normalised device output (the .change log of an unchanged device is one DoLog line)
-	norm := unhx(e.drv.Ask("sshlog\t" + hx(o.simOut)))
-	login, config := o.files["policies/p1/log/router.login"], o.files["policies/p1/log/router.config"]
-	chg := o.files["policies/p1/log/router.change"]
+	norm := unhx(e.drv.Ask("sshlog\t" + hx(o.SimOut)))
+	login, config := o.Files["policies/p1/log/router.login"], o.Files["policies/p1/log/router.config"]
+	chg := o.Files["policies/p1/log/router.change"]
 	logs := login + config
 	if chg != "No changes applied\n" {
 		logs += chg
@@ -1166,7 +1175,7 @@ func (e *c17Env) compareSSH(c *runCase, o *runOutcome) {
 		segs = append(segs, k+hx(cur))
 		cur = ""
 	}
-	for _, line := range strings.Split(o.simTl, "\n") {
+	for _, line := range strings.Split(o.SimTl, "\n") {
 		switch {
 		case strings.HasPrefix(line, "W "):
 			cur += unhx(line[2:])
@@ -1254,43 +1263,128 @@ func (e *c17Env) compareSSH(c *runCase, o *runOutcome) {
 	}
 }
 
-func (e *c17Env) oneRun(c *runCase) {
-	e.runNo++
-	t0 := time.Now()
-	o := e.execRun(c, e.runNo)
-	res := e.res
-	res.CountN("ms:"+c.Dev+":"+c.Fault, int(time.Since(t0).Milliseconds()))
+// ---------------------------------------------------------------- running a case robustly
+
+type runReq struct {
+	Case  *runCase `json:"case"`
+	No    int      `json:"no"`
+	Scale int      `json:"scale"`
+}
+
+// runCaseMain: `vh-c17 -runcase` — one run in a process of its own (a run that hangs can be killed,
+// process globals and ptys are released with the process).
+func runCaseMain() int {
+	var rq runReq
+	if err := json.NewDecoder(os.Stdin).Decode(&rq); err != nil {
+		return 2
+	}
+	// self-test hooks of the robustness logic
+	if os.Getenv("C17_TEST_HANG") == fmt.Sprint(rq.No) && rq.Scale == 1 {
+		time.Sleep(time.Hour)
+	}
+	if os.Getenv("C17_TEST_PTMX") == fmt.Sprint(rq.No) || os.Getenv("C17_TEST_PTMX_ONCE") == fmt.Sprint(rq.No) && rq.Scale == 1 {
+		json.NewEncoder(os.Stdout).Encode(&runOutcome{Status: 1, Stderr: "ERROR>>> open /dev/ptmx: no space left on device\n"})
+		return 0
+	}
+	tmp, err := os.MkdirTemp("", "vh-c17-run-")
+	if err != nil {
+		return 2
+	}
+	defer os.RemoveAll(tmp)
+	o := execRun(tmp, rq.Case, rq.No, rq.Scale)
+	saved := os.Stdout
+	json.NewEncoder(saved).Encode(o)
+	return 0
+}
+
+var envMarks = []string{"/dev/ptmx", "no space left on device", "too many open files", "resource temporarily unavailable",
+	"fork/exec", "cannot allocate memory", "openpty"}
+
+// spawnRun runs the case in a child process with a time-out of its own, far below the harness's.
+func spawnRun(c *runCase, no, scale int) *runOutcome {
+	exe, _ := os.Executable()
+	ctx, cancel := context.WithTimeout(context.Background(), time.Duration(12+8*scale)*time.Second)
+	defer cancel()
+	cmd := exec.CommandContext(ctx, exe, "-runcase")
+	in, _ := json.Marshal(runReq{Case: c, No: no, Scale: scale})
+	cmd.Stdin = bytes.NewReader(in)
+	var outB, errB bytes.Buffer
+	cmd.Stdout, cmd.Stderr = &outB, &errB
+	cmd.WaitDelay = 2 * time.Second
+	err := cmd.Run()
+	o := &runOutcome{Files: map[string]string{}, noEcho: true}
+	switch {
+	case ctx.Err() != nil:
+		o.Env = "child killed after time-out"
+		return o
+	case err != nil:
+		o.Env = "child failed: " + err.Error() + " " + lastLine(errB.String())
+		return o
+	}
+	if err := json.Unmarshal(outB.Bytes(), o); err != nil {
+		o.Env = "outcome unreadable: " + err.Error()
+		return o
+	}
+	o.noEcho = true
+	if o.Files == nil {
+		o.Files = map[string]string{}
+	}
+	if o.Env == "" {
+		hay := o.Stderr + o.PanicMsg + o.runlog(c)
+		for _, m := range envMarks {
+			if strings.Contains(hay, m) {
+				o.Env = "environment: " + m
+			}
+		}
+	}
+	return o
+}
+
+func lastLine(s string) string {
+	l := strings.Split(strings.TrimSpace(s), "\n")
+	return l[len(l)-1]
+}
+
+// evaluate judges one outcome into a scratch result; nothing is reported yet.
+func (e *c17Env) evaluate(c *runCase, o *runOutcome) (scratch *Result, reached bool) {
+	real := e.res
+	scratch = NewResult()
+	e.res = scratch
+	defer func() { e.res = real }()
+	res := scratch
 	if os.Getenv("C17_DEBUG") != "" {
-		fmt.Fprintf(os.Stderr, "---- run %s\nstatus %d panic %q\nstdout: %q\nstderr: %q\nsimEv: %q\n", JSONStr(c), o.status, o.panicMsg, o.stdout, o.stderr, o.simEv)
-		for _, q := range o.reqs {
+		fmt.Fprintf(os.Stderr, "---- run %s\nstatus %d panic %q env %q\nstdout: %q\nstderr: %q\nsimEv: %q\n", JSONStr(c), o.Status, o.PanicMsg, o.Env, o.Stdout, o.Stderr, o.SimEv)
+		for _, q := range o.Reqs {
 			fmt.Fprintf(os.Stderr, "req %s %s form=%q -> %s\n", q.Method, q.URI, q.Form, q.Reply.Kind)
 		}
 		names := []string{}
-		for n := range o.files {
+		for n := range o.Files {
 			names = append(names, n)
 		}
 		sort.Strings(names)
 		for _, n := range names {
-			fmt.Fprintf(os.Stderr, "file %s: %q\n", n, o.files[n])
+			fmt.Fprintf(os.Stderr, "file %s: %q\n", n, o.Files[n])
 		}
 	}
-	if o.panicMsg != "" {
-		res.Fail(map[string]any{"pred": "run_panic_or_timeout", "dev": c.Dev}, o.panicMsg, map[string]any{"run": c})
-		return
+	if o.PanicMsg != "" {
+		res.Fail(map[string]any{"pred": "run_panic", "dev": c.Dev}, o.PanicMsg, map[string]any{"run": c})
+		return scratch, false
 	}
-	reached := len(o.reqs) > 0 || strings.Contains(o.simEv, "<PASSWORD-OK>") || strings.Contains(o.simEv, "<PASSWORD-WRONG>")
-	if c.Dev == "NSX" && len(o.reqs) > 1 {
+	reached = len(o.Reqs) > 0 || strings.Contains(o.SimEv, "<PASSWORD-OK>") || strings.Contains(o.SimEv, "<PASSWORD-WRONG>")
+	if c.Dev == "NSX" && len(o.Reqs) > 1 {
 		// the run is meaningful only if the session secrets were really in use
-		if o.reqs[1].Token != c.Key || o.reqs[1].Cookie != c.Cookie {
-			res.Disagree("c17 run NSX: token/cookie not presented by the client", c, fmt.Sprint(o.reqs[1]), "token and cookie of the login response")
+		if o.Reqs[1].Token != c.Key || o.Reqs[1].Cookie != c.Cookie {
+			res.Disagree("c17 run NSX: token/cookie not presented by the client", c, fmt.Sprint(o.Reqs[1]), "token and cookie of the login response")
 		}
 	}
-	if strings.Contains(o.simEv, "<PASSWORD-AS-COMMAND>") {
+	if strings.Contains(o.SimEv, "<PASSWORD-AS-COMMAND>") {
 		res.Count("ssh:password-sent-as-enable-password")
 	}
-	res.Eval(c.canon(), reached)
+	if o.Retries > 0 {
+		res.CountN("http:transparent-retries-of-dropped-requests", o.Retries)
+	}
 	res.Count("run:" + c.Dev + ":" + c.Cmd)
-	res.Count(fmt.Sprintf("run-status:%s:%d", c.Dev, o.status))
+	res.Count(fmt.Sprintf("run-status:%s:%d", c.Dev, o.Status))
 	if c.FaultAt >= 0 || c.Fault != "" {
 		res.Count("run-fault:" + c.Dev + ":" + c.Fault)
 	}
@@ -1304,9 +1398,80 @@ func (e *c17Env) oneRun(c *runCase) {
 	case c.Dev == "NSX" && c.Cred == "":
 		e.compareNSX(c, o)
 	}
-	if len(res.Samples) < 4 && reached && c.FaultAt >= 0 {
-		res.Sample(map[string]any{"run": c, "status": o.status, "markers": markerLines(o.runlog(c))})
+	if reached && c.FaultAt >= 0 {
+		res.Sample(map[string]any{"run": c, "status": o.Status, "markers": markerLines(o.runlog(c))})
 	}
+	return scratch, reached
+}
+
+// suspicious: something that would be reported (a disagreement, or an oracle failure outside the known
+// class F-C17 whose lines are pinned by the suite).
+func suspicious(r *Result) bool {
+	if len(r.Disagreements) > 0 {
+		return true
+	}
+	for _, f := range r.Failures {
+		if fmt.Sprint(f.Sig["pred"]) != "panos_transport_error_url" {
+			return true
+		}
+	}
+	return false
+}
+
+func (e *c17Env) merge(r *Result) {
+	for k, v := range r.Distribution {
+		if !strings.HasPrefix(k, "failure:") && !strings.HasPrefix(k, "disagreement:") {
+			e.res.CountN(k, v)
+		}
+	}
+	e.res.TracesVsImpl += r.TracesVsImpl
+	for _, d := range r.Disagreements {
+		e.res.Disagree(d.Stream, d.Input, d.Impl, d.Model)
+	}
+	for _, f := range r.Failures {
+		e.res.Fail(f.Sig, f.What, f.Input)
+	}
+	for _, smp := range r.Samples {
+		if len(e.res.Samples) < 4 {
+			e.res.Sample(smp)
+		}
+	}
+}
+
+// finishRun: judge the outcome of the first attempt; whatever would be reported, and every run the
+// environment spoilt, is repeated — serially, with all time-outs five times as long — and only what
+// shows again is reported.  A run the environment spoils twice is inconclusive, not a disagreement.
+func (e *c17Env) finishRun(c *runCase, o *runOutcome) {
+	e.runNo++
+	var v *Result
+	reached := false
+	if o.Env == "" {
+		v, reached = e.evaluate(c, o)
+	}
+	if o.Env != "" || suspicious(v) {
+		why := o.Env
+		if why == "" {
+			why = "would be reported"
+		}
+		e.res.Count("retry(serial, time-outs x5): " + strings.SplitN(why, ":", 2)[0])
+		o2 := spawnRun(c, 100000+e.runNo, 5)
+		if o2.Env != "" {
+			e.res.Count("inconclusive: " + strings.SplitN(o2.Env, ":", 2)[0])
+			e.res.Notes = append(e.res.Notes, fmt.Sprintf("inconclusive run (%s; first attempt: %s): %s", o2.Env, why, JSONStr(c)))
+			return
+		}
+		v2, reached2 := e.evaluate(c, o2)
+		if o.Env == "" && !suspicious(v2) {
+			e.res.Count("not reproduced with longer time-outs")
+		}
+		v, reached = v2, reached2
+	}
+	e.res.Eval(c.canon(), reached)
+	e.merge(v)
+}
+
+func (e *c17Env) oneRun(c *runCase) {
+	e.finishRun(c, spawnRun(c, e.runNo+1, 1))
 }
 
 func (e *c17Env) replayRun(c *runCase) { e.oneRun(c) }
@@ -1336,10 +1501,30 @@ func (e *c17Env) genRunSecrets(rng *RNG, c *runCase) {
 func (e *c17Env) wholeRuns() {
 	rng := e.ctx.Rng.Fork()
 	thorough := e.ctx.Thorough()
+	var cases []*runCase
 	run := func(c *runCase) {
 		e.genRunSecrets(rng, c)
-		e.oneRun(c)
+		cases = append(cases, c)
 	}
+	defer func() {
+		// first attempts: a few children at a time; judged in the order of the plan
+		outs := make([]*runOutcome, len(cases))
+		var wg sync.WaitGroup
+		sem := make(chan struct{}, 3)
+		for i := range cases {
+			wg.Add(1)
+			sem <- struct{}{}
+			go func(i int) {
+				defer wg.Done()
+				outs[i] = spawnRun(cases[i], i+1, 1)
+				<-sem
+			}(i)
+		}
+		wg.Wait()
+		for i, c := range cases {
+			e.finishRun(c, outs[i])
+		}
+	}()
 	// corpus: the finding, minimal; transport error exactly at the HA check (must stay clean); keygen
 	// request that fails after the <key> element has arrived
 	run(&runCase{Dev: "PAN-OS", Cmd: "do-approve approve", FaultAt: 2, Fault: "eof"})
@@ -1382,7 +1567,7 @@ func (e *c17Env) wholeRuns() {
 		c := &runCase{Dev: dev, Cmd: "drc -u", FaultAt: -1, Variant: 1}
 		e.genRunSecrets(rng, c)
 		c.Pass = genSecret(rng, 1) + " " + genCore(rng, 5)
-		e.oneRun(c)
+		cases = append(cases, c)
 	}
 	// malformed credentials files
 	for _, cred := range []string{"4fields", "nomatch", "badpattern"} {
